@@ -174,11 +174,11 @@ def run(ctx):
             inc = d.incoming if d is not None and d.op == 'phi' else [(t.ops[0], None)]
             for v, lab in inc:
                 if re.match(r'^-\d+$', v):
-                    negs.append((v, bf.blocks[lab] if lab else t.bb, t))
+                    negs.append((v, bf.blocks[lab] if lab else t.bb, t, (bf.blocks[lab], d.bb) if lab else None))
         if not negs:
             r.ok(f'{fname}: never refuses', func=bf.name, loc=bf.mod.src, trivial=True)
-        for v, blk, t in negs:
-            F = Facts(P, bf, blk)
+        for v, blk, t, edge in negs:
+            F = Facts(P, bf, blk, extra_edge=edge)
             okg, seen = False, []
             for raw, truth in F.raw:
                 if raw.op != 'icmp':
